@@ -624,7 +624,7 @@ pub fn run(ctx: &Ctx) -> Report {
     rep.absorb(out);
     rep.extra.insert("exhaustive_deep".into(), json!({"len": l2, "starts": deep.len(), "cases": total2}));
 
-    let out = run_random(ctx.seed, ctx.tier.pick(400_000, 20_000_000), 300, decode_random, oracle);
+    let out = run_random(ctx.seed, ctx.tier.pick(3_000_000, 40_000_000), 300, decode_random, oracle);
     rep.absorb(out);
     rep.need("character reference resolved", 1000);
     for s in [
